@@ -287,7 +287,7 @@ klass(BPRP, fields=dict(key_bit_length=TInt, message_bit_length=TInt, underlying
                            underlying_fpe=obj(FFX, rounds=10, digest_size=20)))
 inline(ABP + ".__init__")
 # the value of the PRP as one specification function (what callers reason with): the Feistel state formula above
-prp_value = specfn("prp_value", [TBytes, TInt, TInt, TInt], TInt, macro=True,
+prp_value = specfn("prp_value", [TBytes, TInt, TInt, TInt], TInt, macro=True, opaque=True,
                    py=lambda kb, R, n, v: (lambda h: fav.py(kb, R, v >> h, n - h, v & ((1 << h) - 1), h) * (1 << fbl.py(kb, R, v >> h, n - h, v & ((1 << h) - 1), h))
                                            + fbv.py(kb, R, v >> h, n - h, v & ((1 << h) - 1), h))((n + 1) // 2),
                    doc="value of BitwiseFPEPRP(key bytes kb, R rounds) on the n-bit message with value v")
@@ -300,7 +300,7 @@ def _prp_value_def(kb, R, n, v):
 
 
 prp_value.define = _prp_value_def
-contract(BPRP + ".__call__", params=dict(self=BPRPT, key=BITS, message=BITS), returns=BITS,
+contract(BPRP + ".__call__", reveal=["prp_value"], params=dict(self=BPRPT, key=BITS, message=BITS), returns=BITS,
          raises={"ValueError": dict(when="key.length != self.key_bit_length or message.length != self.message_bit_length", iff=True)},
          ensures=["result.length == message.length", "inv(result)",
                   "result.value == fav(i2b(key.value, (key.length + 7) // 8), self.underlying_fpe.rounds, {a}) * "
